@@ -78,3 +78,23 @@ Definition execute (sig : nat -> params) (eqk : nat -> nat) (reqs : list request
   | Ok log => Ok (log, results_from 0 log [])
   | Err e => Err e
   end.
+
+(** * autoprint: [autoprint = call in direct and call.autoprint] *)
+Definition root_flat (c : call) : flat := match c with Call t a k _ _ => (t, a, k) end.
+
+Fixpoint indices_where {A} (f : A -> bool) (i : nat) (l : list A) : list nat :=
+  match l with
+  | [] => []
+  | x :: l' => if f x then i :: indices_where f (S i) l' else indices_where f (S i) l'
+  end.
+
+(** positions (in execution order) of the executions whose return value is
+    printed: the task is an autoprint task and the call *equals* one of the
+    directly requested calls -- the implicitly chosen default call included *)
+Definition printed (eqk : nat -> nat) (autop : nat -> bool) (reqs : list request)
+           (dflt : option call) (dedupe_on : bool) : list nat :=
+  let calls := normalize reqs dflt in
+  let direct := map root_flat calls in
+  let expanded := expand_calls calls in
+  let final := if dedupe_on then dedupe eqk expanded else expanded in
+  indices_where (fun c => autop (f_task c) && existsb (fun d => call_eqb eqk d c) direct) 0 final.
